@@ -324,47 +324,47 @@ Inductive tag :=
 | TUnchanged                       (* UNCHANGED <<...>> (TLA+ side, actions only) *)
 | TUnsupported (what : string).    (* Go: func() { panic("unsupported operator") }() *)
 
-Inductive expr := N (t : tag) (cs : list expr).
+Inductive expr := Nd (t : tag) (cs : list expr).
 
 (* smart constructors used by the translators *)
-Definition ENum (z : Z) := N (TLit (LNum z)) [].
-Definition EStr (s : string) := N (TLit (LStr s)) [].
-Definition EBool (b : bool) := N (TLit (LBool b)) [].
-Definition EVar x := N (TVar x) [].
-Definition EBound l := N (TBound l) [].
-Definition EGlobal x := N (TGlobal x) [].
-Definition ELocal x := N (TLocal x) [].
-Definition EState x := N (TState x) [].
-Definition EPrime x := N (TPrime x) [].
-Definition ESelf := N TSelf [].
-Definition EConst x args := N (TConst x) args.
-Definition ECall f args := N (TCall f) args.
-Definition EOp o args := N (TOp o) args.
-Definition ETuple es := N TTuple es.
-Definition ESetEnum es := N TSetEnum es.
-Definition ERecord (fs : list (string * expr)) := N (TRecord (map fst fs)) (map snd fs).
-Definition ERecordSet (fs : list (string * expr)) := N (TRecordSet (map fst fs)) (map snd fs).
-Definition EApp f a := N TApp [f; a].
-Definition EIf c t e := N TIf [c; t; e].
-Definition ELet x ps d b := N (TLet x ps) [d; b].
+Definition ENum (z : Z) := Nd (TLit (LNum z)) [].
+Definition EStr (s : string) := Nd (TLit (LStr s)) [].
+Definition EBool (b : bool) := Nd (TLit (LBool b)) [].
+Definition EVar x := Nd (TVar x) [].
+Definition EBound l := Nd (TBound l) [].
+Definition EGlobal x := Nd (TGlobal x) [].
+Definition ELocal x := Nd (TLocal x) [].
+Definition EState x := Nd (TState x) [].
+Definition EPrime x := Nd (TPrime x) [].
+Definition ESelf := Nd TSelf [].
+Definition EConst x args := Nd (TConst x) args.
+Definition ECall f args := Nd (TCall f) args.
+Definition EOp o args := Nd (TOp o) args.
+Definition ETuple es := Nd TTuple es.
+Definition ESetEnum es := Nd TSetEnum es.
+Definition ERecord (fs : list (string * expr)) := Nd (TRecord (map fst fs)) (map snd fs).
+Definition ERecordSet (fs : list (string * expr)) := Nd (TRecordSet (map fst fs)) (map snd fs).
+Definition EApp f a := Nd TApp [f; a].
+Definition EIf c t e := Nd TIf [c; t; e].
+Definition ELet x ps d b := Nd (TLet x ps) [d; b].
 Definition ECase (arms : list (expr * expr)) (other : option expr) :=
-  N (TCase (match other with Some _ => true | None => false end))
+  Nd (TCase (match other with Some _ => true | None => false end))
     (flat_map (fun a => [fst a; snd a]) arms ++ match other with Some o => [o] | None => [] end).
-Definition EFunc (bs : list (pat * expr)) body := N (TFunc (map fst bs)) (map snd bs ++ [body]).
-Definition EFuncSet a b := N TFuncSet [a; b].
+Definition EFunc (bs : list (pat * expr)) body := Nd (TFunc (map fst bs)) (map snd bs ++ [body]).
+Definition EFuncSet a b := Nd TFuncSet [a; b].
 Definition EExcept f (subs : list (list expr * expr)) :=
-  N (TExcept (map (fun s => List.length (fst s)) subs)) (f :: flat_map (fun s => fst s ++ [snd s]) subs).
-Definition EAt := N TAt [].
-Definition EExists (bs : list (pat * expr)) body := N (TExists (map fst bs)) (map snd bs ++ [body]).
-Definition EForall (bs : list (pat * expr)) body := N (TForall (map fst bs)) (map snd bs ++ [body]).
-Definition EFilter p s body := N (TFilter p) [s; body].
-Definition ESetMap body (bs : list (pat * expr)) := N (TSetMap (map fst bs)) (map snd bs ++ [body]).
-Definition EChoose p s body := N (TChoose p) [s; body].
-Definition ECross es := N TCross es.
-Definition EConj es := N TConj es.
-Definition EDisj es := N TDisj es.
-Definition EUnchanged es := N TUnchanged es.
-Definition EUnsupported w := N (TUnsupported w) [].
+  Nd (TExcept (map (fun s => List.length (fst s)) subs)) (f :: flat_map (fun s => fst s ++ [snd s]) subs).
+Definition EAt := Nd TAt [].
+Definition EExists (bs : list (pat * expr)) body := Nd (TExists (map fst bs)) (map snd bs ++ [body]).
+Definition EForall (bs : list (pat * expr)) body := Nd (TForall (map fst bs)) (map snd bs ++ [body]).
+Definition EFilter p s body := Nd (TFilter p) [s; body].
+Definition ESetMap body (bs : list (pat * expr)) := Nd (TSetMap (map fst bs)) (map snd bs ++ [body]).
+Definition EChoose p s body := Nd (TChoose p) [s; body].
+Definition ECross es := Nd TCross es.
+Definition EConj es := Nd TConj es.
+Definition EDisj es := Nd TDisj es.
+Definition EUnchanged es := Nd TUnchanged es.
+Definition EUnsupported w := Nd (TUnsupported w) [].
 
 (* ------------------------------------------------------------------ evaluation *)
 
@@ -433,6 +433,9 @@ Section Eval.
 
   (* fuel bounds the DEPTH of the recursion; out of fuel is a distinct error *)
   Fixpoint eval (fuel : nat) (r : env) (e : expr) {struct fuel} : res value :=
+    match e with
+    | Nd (TLit l) [] => Ok (lit_value l)       (* literals need no fuel *)
+    | _ =>
     match fuel with
     | O => Err "out of fuel"
     | S fuel =>
@@ -461,7 +464,7 @@ Section Eval.
           do ss <- mapM as_set svs;
           mapM (bind_pats ps) (cart ss) in
       match e with
-      | N t cs =>
+      | Nd t cs =>
         match t, cs with
         | TLit l, [] => Ok (lit_value l)
         | TVar x, [] => match lookup x (e_vars r) with Some v => Ok v | None => Err ("unbound variable " ++ x)%string end
@@ -490,10 +493,10 @@ Section Eval.
         | TOp B_and, [a; b] => do x <- ev r a; do p <- as_bool x; if p then (do y <- ev r b; do q <- as_bool y; vb q) else vb false
         | TOp B_or, [a; b] => do x <- ev r a; do p <- as_bool x; if p then vb true else (do y <- ev r b; do q <- as_bool y; vb q)
         | TOp B_implies, [a; b] => do x <- ev r a; do p <- as_bool x; if p then (do y <- ev r b; do q <- as_bool y; vb q) else vb true
-        | TOp B_in, [a; N (TOp B_Nat) []] => do x <- ev r a; vb (match x with VNum z => 0 <=? z | _ => false end)
-        | TOp B_in, [a; N (TOp B_Int) []] => do x <- ev r a; vb (match x with VNum z => true | _ => false end)
-        | TOp B_in, [a; N (TOp B_STRING) []] => do x <- ev r a; vb (match x with VStr _ => true | _ => false end)
-        | TOp B_in, [a; N (TOp B_Seq) [s]] =>
+        | TOp B_in, [a; Nd (TOp B_Nat) []] => do x <- ev r a; vb (match x with VNum z => 0 <=? z | _ => false end)
+        | TOp B_in, [a; Nd (TOp B_Int) []] => do x <- ev r a; vb (match x with VNum z => true | _ => false end)
+        | TOp B_in, [a; Nd (TOp B_STRING) []] => do x <- ev r a; vb (match x with VStr _ => true | _ => false end)
+        | TOp B_in, [a; Nd (TOp B_Seq) [s]] =>
             do x <- ev r a; do sv <- ev r s; do ss <- as_set sv;
             match x with VTup xs => vb (forallb (fun y => set_mem y ss) xs) | _ => vb false end
         | TOp o, args => do vs <- mapM (ev r) args; apply_op o vs
@@ -608,5 +611,6 @@ Section Eval.
         | _, _ => Err "malformed expression"
         end
       end
+    end
     end.
 End Eval.
